@@ -8,7 +8,7 @@ import copy
 import numpy as np
 
 from ..core import Streams, Violation, import_pyprism
-from .base import BaseWorld, lib, must_raise
+from .base import BaseWorld, lib, must_raise, wrap_keys, KEY_CONTAINERS
 
 NAMESETS = [['A'], ['A', 'B'], ['A', 'B', 'C'], ['A', 'B', 'C', 'D'], ['poly', 'solv'], ['AB', 'A', 'B'],
             ['x1', 'x2', 'x3', 'x4'], [1, 2, 3], ['A', 'a']]
@@ -127,7 +127,8 @@ class World(BaseWorld):
         for _ in range(n):
             k = ro.choices(names, [w[x] for x in names])[0]
             if k == 'set':
-                ops.append({'op': 'set', 'k1': gen_keys(ro, types), 'k2': gen_keys(ro, types), 'val': gen_value(ro)})
+                ops.append({'op': 'set', 'k1': gen_keys(ro, types), 'k2': gen_keys(ro, types), 'val': gen_value(ro),
+                            'kc1': ro.choice(KEY_CONTAINERS), 'kc2': ro.choice(KEY_CONTAINERS)})
             elif k == 'set_from_stored':
                 ops.append({'op': 'set_from_stored', 'k1': gen_keys(ro, types), 'k2': gen_keys(ro, types),
                             'src': [ro.choice(types), ro.choice(types)]})
@@ -147,7 +148,7 @@ class World(BaseWorld):
             elif k == 'iter':
                 ops.append({'op': 'iter', 'full': ro.random() < 0.4, 'diagonal': ro.random() < 0.6})
             elif k == 'vset':
-                ops.append({'op': 'vset', 'k': gen_keys(ro, types), 'val': gen_value(ro, mutable_ok=False)})
+                ops.append({'op': 'vset', 'k': gen_keys(ro, types), 'val': gen_value(ro, mutable_ok=False), 'kc': ro.choice(KEY_CONTAINERS)})
             elif k == 'vsetUnset':
                 ops.append({'op': 'vsetUnset', 'val': gen_value(ro, mutable_ok=False)})
             elif k == 'vcheck':
@@ -207,7 +208,10 @@ class World(BaseWorld):
             if name == 'set':
                 obj = materialise(op['val'])
                 l1, l2 = listify(op['k1']), listify(op['k2'])
-                lib('setitem', T.__setitem__, (op['k1'], op['k2']), obj)
+                lib('setitem', T.__setitem__, (wrap_keys(op['k1'], op.get('kc1')), wrap_keys(op['k2'], op.get('kc2'))), obj)
+                for kk, kc in ((op['k1'], op.get('kc1')), (op['k2'], op.get('kc2'))):
+                    if isinstance(kk, list) and kc and kc != 'list':
+                        ctx.probe('keys_as_' + kc)
                 touched = set()
                 for a in l1:
                     for b in l2:
@@ -346,7 +350,7 @@ class World(BaseWorld):
                 ctx.probe('iter_full' if op['full'] else ('iter_diag' if op['diagonal'] else 'iter_offdiag'))
             elif name == 'vset':
                 obj = materialise(op['val'])
-                lib('vsetitem', V.__setitem__, op['k'], obj)
+                lib('vsetitem', V.__setitem__, wrap_keys(op['k'], op.get('kc')), obj)
                 for t in listify(op['k']):
                     vmodel[t] = obj
                 if isinstance(op['k'], list):
